@@ -187,6 +187,18 @@ func refHashOK(fn *ssa.Function, h ssa.Value, at ssa.Instruction, depth int) (bo
 			} else {
 				return false, "the ref is set to field ." + o.Name + ", which is not assigned from a commit write in this function"
 			}
+		case o.Kind == "call" && depth < 2 && samePkgHelper(fn, o.Val) != nil:
+			// result of a same-package helper: what the helper returns must itself be a written commit
+			h := samePkgHelper(fn, o.Val)
+			for _, r := range Returns(h) {
+				if returnKind(r) == RetError || o.Idx >= len(r.Results) {
+					continue
+				}
+				if ok2, why2 := refHashOK(h, ReturnResult(r, o.Idx), at, depth+1); !ok2 {
+					return false, why2
+				}
+				any = true
+			}
 		default:
 			return false, "the ref is set to a hash of unexpected origin (" + o.String() + ")"
 		}
@@ -281,4 +293,24 @@ func checkActionsAtomic(c *Ctx, eff *effSummaries) {
 	if nPull < 2 {
 		c.Violate("R6.5", "expected:pull-functions", "module", fmt.Sprintf("%d Pull functions found (reference 3)", nPull))
 	}
+}
+
+// samePkgHelper: the static callee of call value v when it is a function of fn's package with a body.
+func samePkgHelper(fn *ssa.Function, v ssa.Value) *ssa.Function {
+	cv, ok := v.(*ssa.Call)
+	if !ok {
+		return nil
+	}
+	callee := cv.Common().StaticCallee()
+	if callee == nil || len(callee.Blocks) == 0 || callee == fn {
+		return nil
+	}
+	pf := fn
+	for pf.Parent() != nil {
+		pf = pf.Parent()
+	}
+	if callee.Pkg == nil || (callee.Pkg != pf.Pkg && (pf.Origin() == nil || callee.Pkg != pf.Origin().Pkg)) {
+		return nil
+	}
+	return callee
 }
